@@ -1522,6 +1522,8 @@ class Interp(object):
         if isinstance(n, ast.Name):
             if n.id == 'NotImplemented':
                 return NI
+            if n.id == 'Ellipsis' and not scope.has('Ellipsis'):
+                return Ellipsis
             return scope.get(n.id, self)
         if isinstance(n, ast.Attribute):
             if isinstance(n.value, ast.Call) and isinstance(
